@@ -207,7 +207,6 @@ ENTRIES = {
     "legacy-sse": ["create_client", "create_transport", "try_sse_with_fallback", "try_http_with_sse_fallback:server-speaks-sse-only",
                    "try_http_with_sse_fallback:server-speaks-neither-way-of-detection"],
 }
-JUDGE_HTTP_FACTORY = False        # see "OPEN OBSERVATION" in run_one
 DETECT_ID = "transport-detect"      # the id detect_transport_type uses for its probe request
 
 
@@ -456,14 +455,12 @@ def run_one(ctl: explorer.Ctl, cfg: Dict[str, Any]) -> Dict[str, Any]:
 
     refused = []
     for c, r in results.items():
-        if r["status"] != "ok" and "@create_" in c and c.startswith("http-") and "HTTP transport not available" in str(r["error"]):
-            # OPEN OBSERVATION on the current tree (reported; judged only when JUDGE_HTTP_FACTORY is set): chuk_mcp.transports
-            # imports names the http package does not export (HTTPTransport, HTTPParameters), so HAS_HTTP is False and
-            # create_client("http", ...) / create_transport("http", ...) always raise although httpx is installed
+        if r["status"] != "ok" and "@create_" in c and "transport not available" in str(r["error"]):
+            # a factory that refuses a transport whose dependency is installed
             refused.append(c)
-            if JUDGE_HTTP_FACTORY:
-                viol.append({"sig": {"class": "factory-refuses-an-installed-transport", "entry": c.split("@")[1], "transport": "http"},
-                             "msg": f"steps={steps} carrier={c}: {r['error']}"})
+            viol.append({"sig": {"class": "factory-refuses-an-installed-transport", "entry": c.split("@")[1],
+                                 "transport": {"http-json": "http", "http-sse": "http", "legacy-sse": "sse"}.get(c.split("@")[0], "stdio")},
+                         "msg": f"steps={steps} carrier={c}: {r['error']}"})
             continue
         if r["status"] != "ok":
             viol.append({"sig": {"class": "carrier-did-not-finish", "carrier": c},
@@ -493,7 +490,7 @@ def run_one(ctl: explorer.Ctl, cfg: Dict[str, Any]) -> Dict[str, Any]:
     outs = first.get("outcomes") or []
     return {"outcome": "/".join(o[0] + (":" + str(o[2]) if o[0] == "exc" else "") for o in outs) + f"|{len(carriers)}c",
             "outcomes": outs, "steps": steps, "violations": viol,
-            "counters": {"carrier-runs": len(carriers), "not-judged:http-factory-refused-although-httpx-is-installed": len(refused)}}
+            "counters": {"carrier-runs": len(carriers), "factory-refusals": len(refused)}}
 
 
 def steps_full() -> List[Dict[str, Any]]:
@@ -561,8 +558,6 @@ def run(tier: str, only=None) -> core.Result:
     sched.absorb(res, "carriers-obtained-through-factories-and-fallback-helpers", RUN, out, ecfgs)
     res.coverage["entry_point_conversations"] = len(ecfgs)
     res.coverage["entry_points"] = ENTRIES
-    res.coverage["http_factory_refusals_not_judged"] = res.parts["carriers-obtained-through-factories-and-fallback-helpers"][
-        "counters"].get("not-judged:http-factory-refused-although-httpx-is-installed", 0)
     res.coverage["carrier_runs"] = res.coverage["evaluations"] * len(CARRIERS) + \
         len([c for c in cfgs if c.get("untyped")]) * len(UNTYPED_CARRIERS)
     res.coverage["exhaustive"] = True
@@ -584,7 +579,5 @@ def run(tier: str, only=None) -> core.Result:
         "each carrier is fed its canonical encoding in whole-line / whole-event chunks (framing and encoding variants are decided by C05, C11, C12)",
         "HTTP with a JSON body cannot carry notifications before a response and is compared on conversations without them",
         "ids are compared as 'the id of request i' (value and JSON type), since each run draws its own ids",
-        "create_client('http', ...) / create_transport('http', ...) raise 'HTTP transport not available' on the current tree "
-        "(transports/__init__.py imports names the http package does not export): run, counted, NOT judged - reported as an open observation",
     ]
     return res
